@@ -177,6 +177,11 @@ def check_lub(ctx, rule):
                 ctx.check(not extra, rule, "%s:%s:new-accepting-case" % (label, V),
                           "%s lub (%s, %s) accepts a new case without comparing the two sides: %s" % (label, V, V, extra),
                           [loc[0], row["ln"]], detail={"former": V})
+                if want.get("closed"):
+                    added = sorted(set(gs_now) - set(want.get("guards", [])) - set(want.get("accepting_unguarded", [])))
+                    ctx.check(not added, rule, "%s:%s:closed-cases" % (label, V),
+                              "%s lub (%s, %s): a new accepting case %s was added to a leaf former whose equality is by identity / "
+                              "binder level only" % (label, V, V, added), [loc[0], row["ln"]], detail={"former": V, "cases": sorted(gs_now)})
                 for g in want.get("guards", []):
                     gs = gs_now
                     ctx.check(g in gs, rule, "%s:%s:guard" % (label, V),
